@@ -19,7 +19,8 @@
    [fresh_ids_legacy] with the witness c02_spec_legacy_orphan_refuted. *)
 From Coq Require Import List NArith Bool Arith.
 Import ListNotations.
-From AnySync Require Import Model.TreeAuth Proofs.TreeAuth Proofs.TreeAuthAcl Proofs.TreeAuthMain Proofs.TreeAuthSpec.
+From AnySync Require Import Model.TreeAuth Proofs.TreeAuth Proofs.TreeAuthAcl Proofs.TreeAuthMain Proofs.TreeAuthSpec
+  Proofs.TreeAuthRoot.
 Open Scope N_scope.
 
 (* (1) every change attached by a successful AddRawChanges that was not attached before: came with the batch, is
@@ -140,6 +141,65 @@ Theorem c02_legacy_padding_refuted : forall t num num' p pad,
 Proof. exact legacy_padding_passes. Qed.
 Print Assumptions c02_legacy_padding_refuted.
 
+(* ------------------------------------------------------------------------------------------ the root clause *)
+(* (6) The ROOT as a delivered change.  A root delivery (Model/TreeAuth.v, rootdel) hands a raw root, optionally changes
+   and claimed heads, to one of the construction paths: 0 CreateStorage + BuildObjectTree, 1 CreateStorageWithDeferred-
+   Creation + BuildObjectTree, 2 ValidateRawTreeDefault, 3 ValidateFilterRawTree (model_rootdel; the tree builder is
+   [build] on every path; path 3 past HadReadPermissions is predicted when the key filter drops nothing).  spec_rootdel (over OBSERVED behaviour): a live tree, or anything on disk, only for a root
+   whose id is the hash of its bytes, canonically encoded, signed by the identity it names (derived roots excepted),
+   that identity holding write permission in the TRUTH at the cited record, which the receiver knows (on path 0 the
+   caller's own CreateStorage promises authenticity only); everything else present came with the delivery and is
+   authentic and authorised. *)
+
+(* the tree builder accepts a root only if the root conditions hold against the truth, for all ACL histories *)
+Theorem c02_root_build_sound : forall me owner aroot ws sts,
+  acl_states me owner aroot ws = Some sts -> NoDup (acl_ids aroot ws) ->
+  forall n a root derived t0,
+  view_at (acl_ids aroot ws) sts n = Some a -> build a root derived = Some t0 ->
+  auth_ok (acl_ids aroot ws) sts n (rc_id root) derived [root] root = true.
+Proof. exact build_root_auth. Qed.
+Print Assumptions c02_root_build_sound.
+
+(* the model of every root delivery satisfies the root specification *)
+Theorem c02_root_delivery_satisfies_spec : forall me owner aroot ws sts,
+  acl_states me owner aroot ws = Some sts -> NoDup (acl_ids aroot ws) ->
+  forall a d o,
+  view_at (acl_ids aroot ws) sts (rd_acl_len d) = Some a -> batch_consistent (rd_changes d) ->
+  model_rootdel me a d = Some o -> spec_rootdel (acl_ids aroot ws) sts (rd_with d o) = true.
+Proof. exact model_rootdel_spec. Qed.
+Print Assumptions c02_root_delivery_satisfies_spec.
+
+(* ... and so does every root world (same decidable side conditions on the INPUTS as scenario_wf) *)
+Theorem c02_root_model_satisfies_spec : forall rw, rootworld_wf rw = true -> spec_roots (model_rootworld rw) = true.
+Proof. exact model_roots_satisfy_spec. Qed.
+Print Assumptions c02_root_model_satisfies_spec.
+
+(* a live tree on any path, or anything on disk on the remote paths, only if the tree builder accepted the root *)
+Theorem c02_root_present_only_if_built : forall me a d o,
+  model_rootdel me a d = Some o ->
+  ro_live o = true \/ (rd_path d <> 0 /\ ro_stored o <> []) ->
+  exists t0, build a (rd_root d) (rd_derived d) = Some t0.
+Proof. exact model_root_present_built. Qed.
+Print Assumptions c02_root_present_only_if_built.
+
+(* a root failing CID / canonical form / decoding / signature: nothing is returned, nothing is on disk, on every path *)
+Theorem c02_root_unauthentic_nothing : forall me a d,
+  unmarshal_ok (tree0 (rd_root d) (rd_derived d)) (rd_root d) = false -> model_rootdel me a d = Some ro_none.
+Proof. exact root_unauthentic_nothing. Qed.
+Print Assumptions c02_root_unauthentic_nothing.
+
+(* in the term algebra: ANY alteration of an honest root (payload incl. claimed identity / ACL head / type / data,
+   signature, surrounding bytes, id) that keeps the original signature or the original id is refused by the tree
+   builder, and on every construction path nothing is attached and nothing is stored *)
+Theorem c02_root_mutation_rejected : forall me a num p d' path n cs heads keyed o1 o2 o3 o4 o5 o6,
+  let d := honest num p in
+  (dl_id d' <> dl_id d \/ dl_wire d' <> dl_wire d) ->
+  (wr_sig (dl_wire d') = wr_sig (dl_wire d) \/ dl_id d' = dl_id d) ->
+  build a (to_raw d') false = None /\
+  model_rootdel me a (mkRD path n (to_raw d') false cs heads keyed o1 o2 o3 o4 o5 o6) = Some ro_none.
+Proof. exact root_mutation_rejected. Qed.
+Print Assumptions c02_root_mutation_rejected.
+
 (* ------------------------------------------------------------------------------------------ non-vacuity *)
 (* ACL: 1 root (owner 1); 2 add writers 2, 4, 5, 6; 3 demote 4 to reader; 4 remove 5; 5 remove 6; 6 add 6 again *)
 Definition ex_rk (l : list acct) := Some (mkRk true true l []).
@@ -225,3 +285,53 @@ Example c02_closest_nonvacuous :
   | None => False
   end.
 Proof. vm_compute. reflexivity. Qed.
+
+(* root deliveries over the same ACL (receiver holds all 6 records): honest root-only tree through the default
+   validator (live, root on disk: AddAll(nothing) creates the deferred storage); the same root with a stale signature
+   on the deferred path (refused, nothing anywhere); root + one honest change through the default validator; root
+   signed by the demoted account 4 citing the demotion (refused); derived root-only tree through the default validator
+   (ErrDerived, but the storage was created); authentic root of a non-writer on the eager path (CreateStorage wrote it,
+   BuildObjectTree refused it); root-only tree through the filtering validator by a non-member (ErrNoReadKey) *)
+Definition ex_rd (path : N) (root : rawchange) (derived : bool) (cs : list rawchange) (heads : list N) : rootdel :=
+  mkRD path 6%nat root derived cs heads true false false [] [] [] [].
+Definition ex_rw : rootworld :=
+  mkRW 999 1 1 ex_recs []
+       [ ex_rd 2 ex_root false [] [100];
+         ex_rd 1 (mkRC 100 true true true false [] 0 false 1 1) false [] [100];
+         ex_rd 2 ex_root false [ch 101 [100] 2 2] [101];
+         ex_rd 2 (mkRC 100 true true true true [] 0 false 3 4) false [] [100];
+         ex_rd 2 (mkRC 100 true true true false [] 0 false 0 0) true [] [100];
+         ex_rd 0 (mkRC 100 true true true true [] 0 false 3 4) false [] [100];
+         ex_rd 3 ex_root false [] [100] ].
+Example c02_root_nonvacuous :
+  rootworld_wf ex_rw = true /\
+  map (fun d => (rd_live d, rd_iter d, rd_stored d, rd_added d)) (rw_dels (model_rootworld ex_rw)) =
+    [ (true, [100], [100], []); (false, [], [], []); (true, [100; 101], [101; 100], [101]); (false, [], [], []);
+      (false, [], [100], []); (false, [], [100], []); (false, [], [], []) ] /\
+  spec_roots (model_rootworld ex_rw) = true.
+Proof. vm_compute. repeat split; reflexivity. Qed.
+
+(* the filtering validator with a MEMBER receiver (account 2 holds write permission since record 2): root + one honest
+   change whose read key the receiver holds -> live; root-only -> ErrNoChangeInTree (storage created); a change naming a
+   read key the receiver lacks -> the filter drops it: no prediction (the run checks spec_roots only) *)
+Definition ex_rw_member : rootworld :=
+  mkRW 2 1 1 ex_recs []
+       [ ex_rd 3 ex_root false [ch 101 [100] 2 2] [101];
+         ex_rd 3 ex_root false [] [100];
+         mkRD 3 6%nat ex_root false [ch 101 [100] 2 2] [101] false false false [] [] [] [] ].
+Example c02_root_filter_nonvacuous :
+  rootworld_wf ex_rw_member = true /\
+  map (fun d => (rd_live d, rd_iter d, rd_stored d, rd_added d)) (rw_dels (model_rootworld ex_rw_member)) =
+    [ (true, [100; 101], [101; 100], [101]); (false, [], [100], []); (false, [], [], []) ] /\
+  spec_roots (model_rootworld ex_rw_member) = true.
+Proof. vm_compute. repeat split; reflexivity. Qed.
+
+(* the specification is not trivially true: the same forged root (stale signature) reported as a live tree -- what the
+   code would do if the tree builder did not verify the header of a root on a never-created deferred storage -- is a
+   violation; so is an unauthorised root on disk after a remote delivery *)
+Example c02_root_spec_rejects_forged :
+  spec_roots (mkRW 999 1 1 ex_recs []
+     [mkRD 1 6%nat (mkRC 100 true true true false [] 0 false 1 1) false [] [100] true true true [100] [100] [] []]) = false /\
+  spec_roots (mkRW 999 1 1 ex_recs []
+     [mkRD 2 6%nat (mkRC 100 true true true true [] 0 false 3 4) false [] [100] true false false [] [] [100] []]) = false.
+Proof. vm_compute. split; reflexivity. Qed.
